@@ -42,6 +42,21 @@ CHECKS = {
     'C13': ('3/C13', 'bounded-exhaustive enumeration of datasets x 16 schemes against victories/equalities/defeats recomputed from the reference cost table',
             'Every dataset of DS(3,2), DS(2,3), DS(4,1) x 16 schemes and DS(4,2) x 4 schemes: ranking by decreasing reference Copeland score, feature dictionaries keyed by exactly the universe with the reference numbers, counts sum to n-1 and scores to n(n-1)/2.',
             'small-scope hypothesis; dyadic penalties so cost comparisons are exact'),
+    'C03': ('3/C03', 'bounded-exhaustive enumeration of datasets x schemes x every algorithm configuration x both flags x all schedules (pivot draws, optimal vertices) in three process modes (CPLEX absent/real CBC, CPLEX absent/enumerating solver, cplex stand-in), structural oracle',
+            'Every dataset of DS(3,2), DS(2,3), DS(1,2) under several label presentations and DS(4,2) for the in-process configurations: at least one ranking, exactly one when asked, non-empty disjoint buckets whose union is the universe with types preserved; refusals must be documented and justified; any other exception, or a run that never returns (parent-side hang detection), is a violation.',
+            'the cplex stand-in (exhaustive 0/1 enumerator behind the CPLEX API subset used) replaces the absent solver; CBC is trusted on <=30-variable models'),
+    'C04': ('3/C04', 'same enumeration as C03 with a score oracle, plus the BioConsert kernel explored from every start state of WO(k) for every distinct cost matrix',
+            'For every execution that yields a consensus the score feature is read before the lazy path runs (must be the -1 sentinel or already truthful) and kemeny_score must be a non-negative number within 1e-6 of the reference score of EVERY returned ranking; the local-search bookkeeping is checked at its source from all start states.',
+            'dyadic penalties; stand-ins as in C03'),
+    'C08': ('3/C08', 'explicit-state exploration of the local search: every start state of WO(k) x every distinct cost matrix of the block through the real sweep and one real micro-step per (state, element); plus enumeration of all single-element moves of every ranking returned by the public API',
+            'Local optimality is decided on all moves of all returned rankings for 9 BioConsert configurations, and inductively at kernel level: from every state the micro step takes a legal improving move with an exact claimed delta or, if it takes none, no move of that element improves by more than the 0.001 threshold; the sweep ends in a local optimum with exact accumulated delta.',
+            'private jitted kernels named in the anchors are driven directly (degrades to the API level if renamed); a non-terminating kernel is reported through the parent-side hang detector'),
+    'C09': ('3/C09', 'bounded-exhaustive enumeration of datasets x schemes x 9 BioConsert configurations x both flags x all pivot schedules; starters re-run alone under the same schedule',
+            'Result score <= every unified input ranking and the all-tied ranking (no starters), <= the own consensus of each starting algorithm re-run alone under the same pivot schedule, all returned rankings share one score, default BioConsert <= PickAPerm; DS(4,2) is in the quick tier because the id-order defect needs four elements.',
+            'small-scope hypothesis'),
+    'C14': ('3/C14', 'exhaustive enumeration of configurations (incl. nested) x all 96 schemes over {0,1} + preset multiples for the predicate; datasets x 12 schemes x configurations for the behaviour',
+            'The predicate must answer a bool for every configuration and scheme in all three process modes; declared relevant implies a well-formed consensus on every incomplete dataset of the block, complete datasets are never refused, and Borda / PickAPerm / BioConsert started from them refuse exactly when they declared the scheme not relevant.',
+            'one ranking requested (avoids the documented optimize/all-rankings incompatibility)'),
 }
 
 PENDING = {}
